@@ -228,7 +228,7 @@ def impl(case):
 
 
 def n_ops(case):
-    return {"passive": 1, "psd": 1, "active": 1, "route": 2, "anl": 1, "fit": 3, "drive": 0, "filter": 1}[case["op"]]
+    return {"passive": 1, "psd": 1, "active": 1, "route": 2, "anl": 1, "fit": 3, "drive": 0, "filter": 1, "calib": 1}[case["op"]]
 
 
 def _impl(case, k):
@@ -297,6 +297,8 @@ def _impl(case, k):
         return ["ok " + show_floats([r.fc, r.D, r.sigma_fc, r.sigma_D]) + " " + show_floats(r.ps_fit.power)]
     if k == "fit":
         return impl_fit(case)
+    if k == "calib":
+        return impl_calib(case)
     if k == "drive":
         r = run_drive(case)
         _cache[("drive", case_key(case))] = r
@@ -410,6 +412,86 @@ def impl_fit(c):
     ]
 
 
+def synth_volts(c, m, free):
+    """time series whose periodogram has the model spectrum as expectation (exponentially distributed bins)"""
+    n = c["n"]
+    rate = c["rate"]
+    g = np.random.default_rng(c["subseed"])
+    f = np.fft.rfftfreq(n, 1.0 / rate)
+    p = np.zeros_like(f)
+    p[1:] = np.asarray(m(f[1:], c["fc"], c["D"], *free), dtype=float)
+    z = (g.standard_normal(len(f)) + 1j * g.standard_normal(len(f))) / math.sqrt(2.0)
+    spec = np.sqrt(p * rate * n / 2.0) * z
+    spec[0] = 0.0
+    spec[-1] = spec[-1].real
+    return np.fft.irfft(spec, n)
+
+
+def impl_calib(c):
+    """the complete public path: lk.calibrate_force on a synthetic time series"""
+    import lumicks.pylake as lk
+
+    o, fixed = c["o"], c.get("fixed")
+    m0 = build_model(o, fixed)
+    names = fitted_par_names(c)
+    free = [v for nm, v in zip(("f_diode", "alpha"), (c["fdiode"], c["alpha"])) if nm in names]
+    volts = synth_volts(c, m0, free)
+    kw = dict(
+        bead_diameter=o["d"],
+        temperature=o["temp"],
+        sample_rate=c["rate"],
+        viscosity=o["visc"],
+        hydrodynamically_correct=o["hydro"],
+        rho_sample=o["rho_s"],
+        rho_bead=o["rho_b"],
+        distance_to_surface=o["dist"],
+        fast_sensor=o["fast"],
+        num_points_per_block=c["nblock"],
+        fit_range=(100.0, 23000.0),
+        fixed_diode=None if fixed is None else fixed[0],
+        fixed_alpha=None if fixed is None else fixed[1],
+    )
+    a = c.get("a")
+    if a is not None:
+        t = np.arange(c["n"]) / c["rate"]
+        drive = a["amp_um"] * np.sin(2 * np.pi * a["f"] * t + a["phase"]) + 1.3
+        volts = volts + a["volts_amp"] * np.sin(2 * np.pi * a["f"] * t + a["phase"] - 0.3)
+        kw.update(active_calibration=True, driving_data=drive, driving_frequency_guess=a["guess"])
+    else:
+        kw.update(axial=o["axial"], drag=o.get("drag"))
+    r = lk.calibrate_force(volts, **kw)
+    info = {
+        "fc": float(r.corner_frequency),
+        "D": float(r.diffusion_constant_volts),
+        "efc": float(r.corner_frequency_std_err),
+        "eD": float(r.diffusion_volts_std_err),
+        "names": names,
+        "pars": [float(r.results[nm].value) for nm in names],
+        "epars": [float(r.results["err_" + nm].value) for nm in names],
+        "nblock_used": int(r.ps_data.num_points_per_block),
+    }
+    if a is not None:
+        info["meas"] = measured(r.model)
+        res = r.results
+        obs = [
+            r.displacement_sensitivity,
+            r.stiffness,
+            r.force_sensitivity,
+            r.theoretical_bulk_drag,
+            r.measured_drag_coefficient,
+            res["local_drag_coefficient"].value,
+            r.driving_power,
+            res["theoretical_power"].value,
+            res["err_theoretical_power"].value,
+            r.stiffness_std_err,
+            r.displacement_sensitivity_std_err,
+        ]
+    else:
+        obs = passive_observables(r.model, o, r)
+    _cache[("calib", case_key(c))] = info
+    return [f"ok {branch_of(o)} " + show_floats(obs)]
+
+
 def run_drive(c):
     driving_input = _lk()[3]
     g = np.random.default_rng(c["subseed"])
@@ -471,6 +553,23 @@ def ops(case):
             f"{enc_float(info['eD'])}",
             f"c11.psd {opt_tokens(o)} {filt_tokens(o, fixed)} {enc_float(info['fprobe'])} {enc_float(info['fc'])} "
             f"{enc_float(info['D'])} {fl(info['pars'])}",
+        ]
+    if k == "calib":
+        info = _cache.get(("calib", case_key(case)))
+        if info is None:
+            return ["c11.fitfailed"]
+        o, fixed = case["o"], case.get("fixed")
+        if case.get("a") is None:
+            return [
+                f"c11.passive {opt_tokens(o)} {enc_float(info['fc'])} {enc_float(info['D'])} {enc_float(info['efc'])} "
+                f"{enc_float(info['eD'])}"
+            ]
+        meas = info["meas"]
+        return [
+            f"c11.active {opt_tokens(o)} {filt_tokens(o, fixed)} {enc_float(meas['f'])} "
+            f"{enc_float(meas['amp'])} {enc_float(meas['amp_err'])} {enc_float(meas['maxP'])} {enc_float(meas['df'])} "
+            f"{enc_float(meas['perr'])} {enc_float(info['fc'])} {enc_float(info['D'])} {enc_float(info['efc'])} "
+            f"{enc_float(info['eD'])} {fl(info['pars'])}"
         ]
     if k == "drive":
         return []
@@ -753,6 +852,8 @@ def _oracle(case, ia, k):
         return None
     if k == "fit":
         return oracle_fit(case, ia)
+    if k == "calib":
+        return oracle_calib(case, ia)
     if k == "drive":
         return oracle_drive(case)
     return None
@@ -786,6 +887,11 @@ def oracle_fit(c, ia):
         for want, got, nm in zip(fixed, info["fixed_reported"], ("f_diode", "alpha")):
             if want is not None and (got is None or not rel_ok(got, want)):
                 return f"fixed-diode: {nm} fixed at {want} but reported {got}"
+    # goodness of fit (exploration): data drawn from the model with the theoretical noise gives chi^2/dof ~ 1
+    if c["noisy"]:
+        dof = c["npts"] - 2 - len(info["names"])
+        if not abs(info["chi2"] - 1.0) <= 6.0 * math.sqrt(2.0 / dof) + 0.1:
+            return f"chi-squared[exploration]: chi^2/dof={info['chi2']} for {dof} degrees of freedom on data with the theoretical noise"
     # recovery (exploration)
     truth = {"fc": c["fc"], "D": c["D"] * (n / (n + 1) if not c["noisy"] else 1.0), "f_diode": c["fdiode"], "alpha": c["alpha"]}
     est = {"fc": info["fc"], "D": info["D"]}
@@ -803,6 +909,34 @@ def oracle_fit(c, ia):
             return (
                 f"recovery[exploration,{branch_of(o)},{'noisy' if c['noisy'] else 'noise-free'}]: {nm}={est[nm]} vs generating "
                 f"{truth[nm]} (reported std err {err[nm]}, tolerance {tol})"
+            )
+    return None
+
+
+def oracle_calib(c, ia):
+    """the identities on what lk.calibrate_force reports + EXPLORATION of the recovery through the public path"""
+    info = _cache.get(("calib", case_key(c)))
+    if info is None or not ia[0].startswith("ok"):
+        return f"calibrate_force failed inside the conditioning box: {ia[0]}"
+    sub = dict(c)
+    sub["op"] = "active" if c.get("a") is not None else "passive"
+    sub.update(fc=info["fc"], D=info["D"], efc=info["efc"], eD=info["eD"], pars=info["pars"])
+    clause = _oracle(sub, ia, sub["op"])
+    if clause:
+        return "calibrate_force: " + clause
+    n = info["nblock_used"]
+    truth = {"fc": c["fc"], "D": c["D"], "f_diode": c["fdiode"], "alpha": c["alpha"]}
+    est = {"fc": info["fc"], "D": info["D"]}
+    err = {"fc": info["efc"], "D": info["eD"]}
+    for nm, v, e in zip(info["names"], info["pars"], info["epars"]):
+        est[nm], err[nm] = v, e
+    for nm in est:
+        # block averaging a curved spectrum biases the estimates by O((block width / fc)^2): 3 % allowance
+        tol = 10.0 * err[nm] + 3e-2 * abs(truth[nm])
+        if not abs(est[nm] - truth[nm]) <= tol:
+            return (
+                f"recovery[exploration,calibrate_force,{branch_of(c['o'])}]: {nm}={est[nm]} vs generating {truth[nm]} "
+                f"(reported std err {err[nm]}, tolerance {tol}, n={n})"
             )
     return None
 
@@ -834,14 +968,19 @@ def nontrivial(case, ia):
     k = case["op"]
     if k in ("passive", "psd", "active", "filter"):
         if ia[0].startswith("ok"):
-            return all(math.isfinite(x) for tok in ia[0].split(" ")[1:] if tok.startswith("[") for x in parse_floats(tok)) or True
-        return case.get("stream") == "malformed"
+            # the model was constructed and every reported number is finite (NaN only for an undefined P_exp error)
+            vals = [x for tok in ia[0].split(" ")[1:] if tok.startswith("[") for x in parse_floats(tok)]
+            return all(math.isfinite(x) or math.isnan(x) for x in vals)
+        # a rejection counts when the configuration is outside the documented domain or the parameter count is wrong
+        return k == "filter" or o_valid(case["o"], case.get("fixed")) is not None or case.get("stream") == "malformed"
     if k == "route":
         return True
     if k == "anl":
         return ia[0].startswith("ok")
     if k == "fit":
         return ia[1].startswith("ok")
+    if k == "calib":
+        return ia[0].startswith("ok")
     if k == "drive":
         return True
     return False
@@ -883,7 +1022,7 @@ def extra_coverage(results):
         c = r["case"]
         cov["by_op"][c["op"]] = cov["by_op"].get(c["op"], 0) + 1
         if "o" in c:
-            b = branch_of(c["o"]) + ("/active" if c["op"] == "active" else "") + ("/fit" if c["op"] == "fit" else "")
+            b = branch_of(c["o"]) + ("/active" if c["op"] == "active" else "") + ("/fit" if c["op"] == "fit" else "") + ("/calibrate_force" if c["op"] == "calib" else "")
             cov["by_branch"][b] = cov["by_branch"].get(b, 0) + 1
         for a in r["impl"]:
             if not (a.startswith("ok") or a.startswith("b")):
@@ -896,13 +1035,39 @@ def extra_coverage(results):
         "fits_fixed_diode": sum(1 for r in fits if r["case"].get("fixed") is not None),
         "fits_hydro": sum(1 for r in fits if r["case"]["o"]["hydro"]),
         "drive_estimates": sum(1 for r in results if r["case"]["op"] == "drive"),
+        "calibrate_force_runs": sum(1 for r in results if r["case"]["op"] == "calib"),
+        "calibrate_force_active": sum(1 for r in results if r["case"]["op"] == "calib" and r["case"].get("a") is not None),
     }
     anl = [r for r in results if r["case"]["op"] == "anl"]
+    br = {"a/b>0,b>0 (regular)": 0, "a/b<=0 (fc fall-back)": 0, "b<=0 (D fall-back)": 0, "singular": 0}
+    illcond = 0
+    for r in anl:
+        tm = r["model"][0].split(" ")
+        if tm[0] != "ok":
+            br["singular"] += 1
+            continue
+        a, b, sa, sb = (dec_rat(x) for x in tm[1:5])
+        if b <= 0:
+            br["b<=0 (D fall-back)"] += 1
+        if b == 0 or a / b <= 0:
+            br["a/b<=0 (fc fall-back)"] += 1
+        if b > 0 and a / b > 0:
+            br["a/b>0,b>0 (regular)"] += 1
+        if (a != 0 and float(sa / abs(a)) * 1e-9 > 1e-3) or (b != 0 and float(sb / abs(b)) * 1e-9 > 1e-3):
+            illcond += 1
     cov["analytical_fit"] = {
         "cases": len(anl),
         "exact_lorentzians": sum(1 for r in anl if r["case"].get("exact")),
         "sizes": sorted({len(r["case"]["fs"]) for r in anl})[:40],
+        "branches": br,
+        "dropped_for_margin": f"{illcond} cases so ill-conditioned (1e-9 x scale > 1e-3 |value|) that only a, b (through the fitted "
+        "spectrum) were compared, not fc/D/sigma",
     }
+    cov["generator_margins"] = (
+        "axial models: surface distance >= 1.001 radii (Brenner denominator vanishes at contact, condition number 1/(1-R/h)); "
+        "fit exploration: fixed alpha inside 0.1-0.8 (alpha = 0 or 1 makes f_diode unidentifiable); active: driving peak at "
+        "least 3x above the thermal background"
+    )
     return cov
 
 
@@ -1093,6 +1258,36 @@ def fit_case(rng, stream, quick, noisy):
     }
 
 
+def calib_case(rng, stream, quick, active):
+    c = fit_case(rng, stream, quick, True)
+    o = c["o"]
+    if active:
+        o["axial"] = False
+        o["drag"] = None
+        if o["dist"] is not None and not o["hydro"]:
+            o["dist"] = max(o["dist"], 0.5 * o["d"] * 1.001)
+    rate = 78125.0
+    dur = rng.uniform(1.0, 2.0) if quick else rng.uniform(2.0, 6.0)
+    n = 2 * int(rate * dur / 2)
+    bins = (23000.0 - 100.0) * (n / rate)
+    npts = rng.randint(150, 400)
+    c.update(op="calib", rate=rate, n=n, nblock=max(20, int(bins / npts)))
+    for key in ("step", "npts", "dur", "fmin", "noisy"):
+        c.pop(key, None)
+    if active:
+        f = rng.choice([17.0, 37.0, rng.uniform(12.0, 90.0)])
+        thermal = c["D"] / (math.pi**2 * (f * f + c["fc"] ** 2))
+        ratio = rng.loguniform(30.0, 1e4)
+        c["a"] = {
+            "f": f,
+            "amp_um": rng.loguniform(0.05, 2.0),
+            "phase": rng.uniform(0, 6.28),
+            "volts_amp": math.sqrt(2 * (f / 5) * thermal * ratio),
+            "guess": f + rng.uniform(-2.0, 2.0),
+        }
+    return c
+
+
 def drive_case(rng, stream, quick):
     rate = rng.choice([10000.0, 20000.0]) if quick else rng.choice([10000.0, 50000.0, 78125.0])
     f = rng.choice([17.0, 37.0, rng.uniform(10.0, 120.0)])
@@ -1145,7 +1340,8 @@ def cases(tier, rng):
         (False, True), (False, True), (0, 1, 2), (0.00089, None), (False, True), (None, 3.1e-8), FIXED_PATTERNS
     ):
         d = 4.4
-        dist = None if dk == 0 else ((0.75 if hydro else 0.5) * d * (1.0 + 1e-6) if dk == 1 else 3.7 * d)
+        # near the validity limit (axial: 1e-3 away, the Brenner denominator vanishes at contact) / far
+        dist = None if dk == 0 else ((0.75 if hydro else 0.5) * d * (1.0 + (1e-3 if axial else 1e-6)) if dk == 1 else 3.7 * d)
         o = base_opts(d=d, visc=visc, temp=25.0, hydro=hydro, axial=axial, dist=dist, fast=fast, drag=drag, rho_s=None)
         if fast and fixed is not None:
             continue
@@ -1176,14 +1372,14 @@ def cases(tier, rng):
 
     # ---- analytical Lorentzian: exact and noisy
     r_anl = rng.fork("anl")
-    for _ in range(60 if quick else 600):
+    for _ in range(200 if quick else 1500):
         yield lorentz_case(r_anl, "lorentzian-exact", quick)
-    for _ in range(60 if quick else 600):
+    for _ in range(200 if quick else 1500):
         yield noisy_anl_case(r_anl, "lorentzian-noisy", quick)
 
     # ---- seeded random option matrix
     r = rng.fork("random")
-    for _ in range(600 if quick else 8000):
+    for _ in range(3000 if quick else 30000):
         o = rand_opts(r)
         fixed = rand_fixed(r, o)
         v = rand_fit_values(r)
@@ -1192,14 +1388,14 @@ def cases(tier, rng):
             pars = default_pars(o, fixed, r.uniform(5000.0, 20000.0), r.uniform(0.1, 0.8))
             yield {"stream": "random", "op": "psd", "o": o, "fixed": fixed, "f": r.loguniform(1.0, 39000.0), "fc": v["fc"], "D": v["D"], "pars": pars}
     r = rng.fork("active")
-    for _ in range(60 if quick else 600):
+    for _ in range(200 if quick else 2000):
         o = rand_opts(r, active=True)
         fixed = rand_fixed(r, o)
         v = rand_fit_values(r)
         pars = default_pars(o, fixed, r.uniform(5000.0, 20000.0), r.uniform(0.1, 0.8))
         yield {"stream": "random", "op": "active", "o": o, "fixed": fixed, "a": active_signal(r, o, v, quick), "pars": pars, **v}
     r = rng.fork("route")
-    for _ in range(100 if quick else 1000):
+    for _ in range(300 if quick else 3000):
         pat = r.randint(0, 3)
         fixed = [r.uniform(1.0, 30000.0) if pat & 1 else None, r.uniform(0.0, 1.0) if pat & 2 else None]
         pars = [r.uniform(1.0, 30000.0) for _ in range(r.choice([0, 1, 1, 2, 2, 3]))]
@@ -1207,8 +1403,11 @@ def cases(tier, rng):
 
     # ---- EXPLORATION: optimiser and FFT estimator
     r = rng.fork("fit")
-    for i in range(24 if quick else 300):
+    for i in range(80 if quick else 1200):
         yield fit_case(r, "exploration-fit", quick, noisy=(i % 2 == 1))
     r = rng.fork("drive")
-    for _ in range(20 if quick else 200):
+    for _ in range(30 if quick else 400):
         yield drive_case(r, "exploration-drive", quick)
+    r = rng.fork("calib")
+    for i in range(8 if quick else 120):
+        yield calib_case(r, "exploration-calibrate_force", quick, active=(i % 3 == 2))
